@@ -102,7 +102,7 @@ class C20(Prop):
                 audio = [(30000 if (i // 40) % 2 else -30000) for i in range(n)]
             raw = b"".join(struct.pack("<h", x) for x in audio)
             cmd_m = [mod, "-S", src, "-C", str(can)] + (["-D", dst] if dst else []) + (["-i"] if inv else [])
-            pm = subprocess.run(cmd_m, input=raw, stdout=subprocess.PIPE, stderr=subprocess.PIPE, timeout=600)
+            pm = subprocess.run(cmd_m, input=raw, stdout=subprocess.PIPE, stderr=subprocess.PIPE, timeout=600, env=core.san_env())
             bb = pm.stdout
             lead_info = None
             if lead:
@@ -116,7 +116,7 @@ class C20(Prop):
                 lead_info = {"samples": k, "sigma_int16": sig, "seed": lseed, "how": "random.Random(seed).gauss(0, sigma) per sample, clipped to int16, little endian, in front of the baseband"}
                 bb = b"".join(struct.pack("<h", max(-32768, min(32767, int(lr.gauss(0, sig))))) for _ in range(k)) + bb
             cmd_d = [dem, "-l"] + (["-i"] if inv else [])
-            pd = subprocess.run(cmd_d, input=bb, stdout=subprocess.PIPE, stderr=subprocess.PIPE, timeout=600)
+            pd = subprocess.run(cmd_d, input=bb, stdout=subprocess.PIPE, stderr=subprocess.PIPE, timeout=600, env=core.san_env())
             err = pd.stderr.decode(errors="replace")
             key = (src, dst, can, inv, str(lead), akind, secs, tag)
             ctx.count(key, nontrivial=True)
@@ -157,11 +157,11 @@ class C20(Prop):
                 # receiver deaf to a transmission whose voice payload repeats in every frame: is it the known open finding (false sync lock)?
                 # differential diagnosis: same callsigns, CAN, polarity and lead-in with noise audio of the same length
                 raw2 = b"".join(struct.pack("<h", rng.randrange(-8000, 8000)) for _ in range(n))
-                bb2 = subprocess.run(cmd_m, input=raw2, stdout=subprocess.PIPE, stderr=subprocess.PIPE, timeout=600).stdout
+                bb2 = subprocess.run(cmd_m, input=raw2, stdout=subprocess.PIPE, stderr=subprocess.PIPE, timeout=600, env=core.san_env()).stdout
                 if lead_info:
                     lr = __import__("random").Random(lead_info["seed"])
                     bb2 = b"".join(struct.pack("<h", max(-32768, min(32767, int(lr.gauss(0, lead_info["sigma_int16"]))))) for _ in range(lead_info["samples"])) + bb2
-                pd2 = subprocess.run(cmd_d, input=bb2, stdout=subprocess.PIPE, stderr=subprocess.PIPE, timeout=600)
+                pd2 = subprocess.run(cmd_d, input=bb2, stdout=subprocess.PIPE, stderr=subprocess.PIPE, timeout=600, env=core.san_env())
                 e2 = pd2.stderr.decode(errors="replace")
                 if pd2.returncode == 0 and f"SRC: {src}," in e2 and "EOS" in e2 and len(pd2.stdout) // 640 >= frames_tx - 400:
                     bbp = os.path.join(core.VERIF, "evidence", "replay", f"C20-{abs(hash(key)) % 10**8}.audio.raw")
